@@ -76,7 +76,9 @@ fn parse_exponent(data: &[u8], index: &mut usize) -> Result<i32, Error> {
     }
 
     check_digit!(data, *index);
-    while exponent < 1000 && is_digit!(data, *index) {
+    // keep accumulating far beyond the f64 range: the exponent is added to the (possibly huge)
+    // count of skipped digits before it is judged, e.g. `0.<10000 zeros>1e10001` is 1.0
+    while exponent < 100_000_000 && is_digit!(data, *index) {
         exponent = digit!(data, *index) as i32 + exponent * 10;
         *index += 1;
     }
